@@ -239,6 +239,10 @@ func (g *Gen) Sweep(i int) *Node {
 	nl := NonLeafKinds()
 	outer := nl[(i/len(nl))%len(nl)]
 	inner := nl[i%len(nl)]
-	leaf := g.Make(LeafKinds[(i+g.R.Intn(len(LeafKinds)))%len(LeafKinds)], nil, nil)
+	li := (i + g.R.Intn(len(LeafKinds))) % len(LeafKinds)
+	for !g.allowed(LeafKinds[li]) {
+		li = (li + 1) % len(LeafKinds)
+	}
+	leaf := g.Make(LeafKinds[li], nil, nil)
 	return g.Around(outer, g.Around(inner, leaf))
 }
